@@ -524,7 +524,7 @@ def env_family(seed, n, maxlen=3, budget=6000):
             lvl = level(named, postail(pos("p0", "opt")), ftu=ftu)
         else:
             lvl = level([sw("t", "-t")], cmdtail([cmd("one", level(named, NOTAIL, ftu=ftu))], optional=True))
-        d = mkdef(f"env{seed}_{len(out)}", lvl, maxlen=maxlen, extras=("unk",), spells=("sep", "eq"),
+        d = mkdef(f"env{seed}_{len(out)}", lvl, maxlen=maxlen, extras=("unk", "help") if len(out) % 2 else ("unk",), spells=("sep", "eq"),
                   words=("1", "x"), envvals=("UNSET", "1", "x", "2", "%FF"))
         trim_to_budget(d, budget)
         out.append(d)
